@@ -395,13 +395,15 @@ pub fn gen_model(rng: &mut Rng, cfg: &ModelCfg) -> FModel {
     }
     // second pass: fill method code
     let total = consts.len();
+    let mut huge_used = false;
     for c in consts.iter_mut() {
         if let FConst::Method { code, .. } = c {
             let len = match rng.below(10) {
                 0 => 0,
                 1 => 1,
                 2 => 255 + rng.usize_below(3),
-                3 if cfg.max_code > 65536 => 65535 + rng.usize_below(3),
+                // at most one method per model crosses the u16 boundary of the instruction count (cost control)
+                3 if cfg.max_code > 65536 && !huge_used => { huge_used = true; 65535 + rng.usize_below(3) }
                 _ => rng.usize_below(cfg.max_code.min(40).max(1)),
             }
             .min(cfg.max_code);
